@@ -10,7 +10,7 @@ KEEP = [  # private helpers the rules name (kept as functions); every other non-
     "PayloadWriter::write_counter", "PayloadWriter::write_distribution", "PayloadWriter::write_gauge", "PayloadWriter::write_hist_dist_inner",
     "PayloadWriter::write_histogram", "PayloadWriter::write_trailing", "Payloads::len", "State::flush",
     "State::new", "Telemetry::new", "TelemetryUpdate::clear", "WriteResult::failure",
-    "WriteResult::increment_payloads_written", "WriteResult::increment_points_dropped", "WriteResult::new", "WriteResult::payloads_written",
+    "WriteResult::new", "WriteResult::payloads_written",
     "WriteResult::points_dropped", "WriteResult::success", "writer::write_metric_trailer",
 ]
 TITLE = "C09 DogStatsD payloads are valid, bounded, and account for every point."
@@ -61,6 +61,23 @@ def buf_ops(fn, field="buf"):
 def byte(c):
     v = const_int(arg_syms(c)[1])
     return chr(v) if v is not None and 0 <= v < 256 else None
+
+
+def _root_local(b, op):
+    """The local a bare copy/move operand ultimately copies (through single-definition temporaries)."""
+    p_ = op.get("copy") or op.get("move")
+    if p_ is None or [e for e in (p_.get("pr") or []) if e != "*"]:
+        return None
+    l = p_["l"]
+    for _ in range(6):
+        ds = b.defs().get(l, [])
+        if len(ds) == 1 and ds[0][0] == "assign" and ds[0][3]["rv"]["k"] == "use":
+            q = ds[0][3]["rv"]["a"].get("copy") or ds[0][3]["rv"]["a"].get("move")
+            if q is not None and not q.get("pr"):
+                l = q["l"]
+                continue
+        break
+    return l
 
 
 def run(ctx):
@@ -194,26 +211,35 @@ def run(ctx):
         chk.ob("C09.b", f"{hw.path} [split test]", split, "a payload is closed when current_len + value_str.len() + 1 > max_payload_len" if split else "the split test does not compare current_len + value_str.len() + 1 with the limit (strictly greater)", hw.loc())
 
         # ---------------- C09.d
+        from props.common import field_increments
+
         commits = [c for c in nonforeign_calls(hw) if c.fn is hw and c.is_("PayloadWriter::commit")]
-        incs = [c for c in nonforeign_calls(hw) if c.fn is hw and c.is_("WriteResult::increment_payloads_written")]
-        ok = len(commits) == 2 and len(incs) == len(commits)
-        if ok:
-            for cm in commits:
-                mine = [i_ for i_ in incs if b.dominates(cm.bb, i_.bb)]
-                nearest = min(mine, key=lambda i_: len(b.dominators()[i_.bb])) if mine else None
-                if nearest is None or any(b.dominates(o.bb, nearest.bb) and b.dominates(cm.bb, o.bb) and o is not cm for o in commits if o.bb != cm.bb):
-                    ok = False
-        chk.ob("C09.d", f"{hw.path} [commit -> payloads_written]", ok, f"{len(commits)} commit sites, each followed by increment_payloads_written" if ok else "a committed payload is not counted (or counted without a commit): reported payloads_written differs from what was emitted", hw.loc())
-        drops = [c for c in nonforeign_calls(hw) if c.fn is hw and c.is_("WriteResult::increment_points_dropped")]
-        ok = len(drops) == 1 and in_cycle(b, drops[0].bb)
-        if ok:
-            g = gates(b, drops[0].bb)
-            ok = any(lab is True and strip_sym(dd)[0] == "bin" and strip_sym(dd)[1] == "Gt" and "max_payload_len" in repr(dd) and "format" in sym_str(dd) for dd, lab in g)
-            # the skipped value is not written: no ':' push reachable in the same iteration
-            heads = [c.bb for c in nonforeign_calls(hw) if c.fn is hw and c.is_("Iterator::next")]
-            colon = [c for c in buf_ops(hw) if c.is_("Vec<T, A>::push") and byte(c) == ":"]
-            ok = ok and all(c.bb not in b.reachable(drops[0].t.get("target"), cut=set(heads)) for c in colon)
-        chk.ob("C09.d", f"{hw.path} [skipped value -> points_dropped]", ok, "a value that cannot fit even alone is counted as dropped and not written" if ok else "a skipped value is not reported as dropped (or is also written)", hw.loc())
+        incs = field_increments(hw, "payloads_written")
+        if incs is None:
+            chk.unrecognised("C09.d", f"{hw.path} [commit -> payloads_written]", "cannot trace the returned payloads_written to one counter", hw.loc())
+        else:
+            ok = len(commits) == 2 and len(incs) == len(commits) and all(ln > 0 for _bb, ln in incs)
+            if ok:
+                for cm in commits:
+                    mine = [i_ for i_ in incs if b.dominates(cm.bb, i_[0])]
+                    nearest = min(mine, key=lambda i_: len(b.dominators()[i_[0]])) if mine else None
+                    if nearest is None or any(b.dominates(o.bb, nearest[0]) and b.dominates(cm.bb, o.bb) and o.bb != cm.bb for o in commits):
+                        ok = False
+            chk.ob("C09.d", f"{hw.path} [commit -> payloads_written]", ok, f"{len(commits)} commit sites, each followed by payloads_written + 1" if ok else "a committed payload is not counted (or counted without a commit): reported payloads_written differs from what was emitted", hw.loc())
+        drops = field_increments(hw, "points_dropped")
+        if drops is None:
+            chk.unrecognised("C09.d", f"{hw.path} [skipped value -> points_dropped]", "cannot trace the returned points_dropped to one counter", hw.loc())
+        else:
+            ok = len(drops) == 1 and drops[0][1] > 0 and in_cycle(b, drops[0][0])
+            if ok:
+                dbb = drops[0][0]
+                g = gates(b, dbb)
+                ok = any(strip_sym(dd)[0] == "bin" and "max_payload_len" in repr(dd) and "format" in sym_str(dd) and ((strip_sym(dd)[1] == "Gt" and lab is True and "max_payload_len" in repr(strip_sym(dd)[3])) or (strip_sym(dd)[1] == "Le" and lab is False and "max_payload_len" in repr(strip_sym(dd)[3])) or (strip_sym(dd)[1] == "Lt" and lab is True and "max_payload_len" in repr(strip_sym(dd)[2])) or (strip_sym(dd)[1] == "Ge" and lab is False and "max_payload_len" in repr(strip_sym(dd)[2]))) for dd, lab in g)
+                # the skipped value is not written: no ':' push reachable in the same iteration
+                heads = [c.bb for c in nonforeign_calls(hw) if c.fn is hw and c.is_("Iterator::next")]
+                colon = [c for c in buf_ops(hw) if c.is_("Vec<T, A>::push") and byte(c) == ":"]
+                ok = ok and all(c.bb not in b.reachable_after(dbb, cut=set(heads)) and c.bb != dbb for c in colon)
+            chk.ob("C09.d", f"{hw.path} [skipped value -> points_dropped]", ok, "a value that cannot fit even alone is counted as dropped and not written" if ok else "a skipped value is not reported as dropped (or is also written)", hw.loc())
         fails = [c for c in nonforeign_calls(hw) if c.fn is hw and c.is_("WriteResult::failure")]
         ok = len(fails) == 1 and sym_is_call(sym_through(arg_syms(fails[0])[0]), "len") or (len(fails) == 1 and "len(" in sym_str(arg_syms(fails[0])[0]))
         ok = ok and not in_cycle(b, fails[0].bb)
@@ -251,7 +277,8 @@ def run(ctx):
                 seq.append("<name>")
             elif "format" in sym_str(a):
                 fm = [x for x in sym_walk(a) if isinstance(x, tuple) and x and x[0] == "call" and isinstance(x[1], str) and "Buffer::format" in x[1]]
-                seq.append("<value:" + (strip_generics(fm[0][1]).split("::")[0] + "::" + strip_generics(fm[0][1]).split("::")[-1] if fm else "?") + ">")
+                conv = bool(fm) and any(isinstance(x, tuple) and x and x[0] == "cast" for x in sym_walk(fm[0][2][-1]))
+                seq.append("<value:" + (strip_generics(fm[0][1]).split("::")[0] + "::" + strip_generics(fm[0][1]).split("::")[-1] if fm else "?") + ("(converted)" if conv else "") + ">")
             else:
                 s_ = _bytes_const(a)
                 seq.append(s_ if s_ is not None else sym_str(strip_sym(a))[:20])
@@ -299,6 +326,25 @@ def run(ctx):
 
         okc = len(ch) == 1 and is_param(sym_through(arg_syms(ch[0])[0], *ITER_VIEWS), 4) and sym_is_call(arg_syms(ch[0])[1], "Key::labels")
         chk.ob("C09.e", f"{wt.path} [trailer order]", ok and okc, "|@rate, |#tags (global labels chained before the key's), |Ttimestamp, newline — newline on every path" if ok and okc else f"trailer tokens {[v for v, _ in lits]} are not in the order rate, tags, timestamp, newline, or tags are not global.chain(key labels)", wt.loc())
+        # the tag section is opened once: when `|#` and `,` are chosen by a bool flag inside the tag loop, every way from
+        # the `|#` write round the loop to the next test sets the flag (a `continue` for a bare tag included)
+        if "|#" in order and "," in order and in_cycle(b, order["|#"].bb):
+            W = order["|#"].bb
+            flag = None
+            for s_ in range(b.n):
+                t_ = b.term(s_)
+                if t_["k"] == "switch" and t_.get("dty") == "bool" and in_cycle(b, s_) and any(b.edge_dominates((s_, tg), W) for _lab, tg in b.switch_edges(s_)):
+                    l_ = _root_local(b, t_["discr"])
+                    if l_ is not None and any(b.edge_dominates((s_, tg), order[","].bb) for _lab, tg in b.switch_edges(s_)):
+                        flag = l_
+            if flag is None:
+                g_ = [sym_str(dd)[:60] for dd, _lab in gates(b, W)]
+                idx_idiom = any("enumerate" in x.lower() or "peek" in x.lower() for x in g_)
+                chk.ob("C09.e", f"{wt.path} [tag section opened once]", idx_idiom, "`|#` for the first tag, `,` for the others (decided by position)" if idx_idiom else f"cannot see what decides between `|#` and `,` in the tag loop (gates {g_})", order["|#"].loc(), nontrivial=False)
+            else:
+                sets = {i for i, _k, st in b.stmts() if st["k"] == "assign" and st["p"]["l"] == flag and not st["p"].get("pr") and st["rv"]["k"] == "use" and (st["rv"].get("a") or {}).get("const", {}).get("bool") is True}
+                again = W in sets or W not in b.reachable_after(W, cut=sets)
+                chk.ob("C09.e", f"{wt.path} [tag section opened once]", bool(sets) and again, "after `|#` is written the flag is set on every way to the next tag" if sets and again else "`|#` can be written again for a later tag: some way round the tag loop (e.g. the `continue` after a bare tag) leaves the flag unset", order["|#"].loc())
         fm = [c for c in nonforeign_calls(wt) if "Buffer::format" in (c.resolved or "")]
         okf = all(not c.is_("Buffer::format_finite") for c in fm) and len(fm) == 2
         chk.ob("C09.e", f"{wt.path} [formatters]", okf, "sample rate via ryu format, timestamp via itoa format" if okf else "trailer numbers are not rendered with the full-range formatters", wt.loc(), nontrivial=False)
